@@ -24,7 +24,16 @@ from fractions import Fraction
 
 VERIF = os.path.dirname(os.path.dirname(os.path.abspath(__file__)))
 REPO = os.environ.get("VERIF_REPO", "/repo")
-NPROC = int(os.environ.get("VERIF_NPROC", "16"))
+def _default_nproc():
+    # results do not depend on the number of workers (ordered imap); on a busy machine use fewer
+    try:
+        load = os.getloadavg()[0]
+    except OSError:
+        load = 0.0
+    return 16 if load < 24 else 6
+
+
+NPROC = int(os.environ.get("VERIF_NPROC", "0")) or _default_nproc()
 CASE_TIMEOUT = float(os.environ.get("VERIF_CASE_TIMEOUT", "20"))
 
 
